@@ -372,7 +372,9 @@ class FastObjectUpdateCompressedDataDeserializer:
             flags, owner_id = foo
         scale = Vector3(scalex, scaley, scalez)
         full_id = UUID(bytes=full_id)
-        pcode = tmpls.PCode(pcode)
+        # PCodes we don't have a name for stay ints, same as in the declarative template
+        if pcode in iter(tmpls.PCode):
+            pcode = tmpls.PCode(pcode)
         if pcode == tmpls.PCode.AVATAR:
             state = tmpls.AgentState(state)
         elif pcode == tmpls.PCode.PRIMITIVE:
